@@ -13,7 +13,7 @@ import (
 func equalOnPanic(c Case) Event {
 	e := Event{"t": "Point", "ct": "XY", "c": []string{}}
 	return Event{"kind": c.str("kind"), "a": e, "b": e, "how": c.str("how"), "eq": false, "eqrev": false, "eqio": false, "eqiorev": false,
-		"eqaa": false, "eqbb": false, "eqioaa": false, "eqiobb": false, "p": [][]int{}, "q": [][]int{}, "t2": 0}
+		"eqaa": false, "eqbb": false, "eqioaa": false, "eqiobb": false, "eqiom": false, "eqiogc": false, "p": [][]int{}, "q": [][]int{}, "t2": 0}
 }
 
 func equalExec(c Case) Event {
@@ -52,6 +52,37 @@ func equalExec(c Case) Event {
 		if !geom.ExactEquals(gc(a), gc(a), geom.ToleranceXY(t), geom.IgnoreOrder) {
 			ev["eqaa"] = false
 		}
+		return ev
+	}
+	if c.str("kind") == "curve" {
+		// closed curves with integer vertices, simple or not: the start vertex is immaterial for rings only
+		mk := func(v interface{}) (geom.LineString, [][]int) {
+			var pts []geom.XY
+			out := [][]int{}
+			for _, p := range v.([]interface{}) {
+				pp := p.([]interface{})
+				x, y := jnum(pp[0]), jnum(pp[1])
+				pts = append(pts, geom.XY{X: x, Y: y})
+				out = append(out, []int{int(x), int(y)})
+			}
+			return geom.NewLineString(seqOf(pts)), out
+		}
+		a, pa := mk(c["p"])
+		b, pb := mk(c["q"])
+		ev["p"], ev["q"] = pa, pb
+		ag, bg := a.AsGeometry(), b.AsGeometry()
+		ev["eq"], ev["eqrev"] = geom.ExactEquals(ag, bg), geom.ExactEquals(bg, ag)
+		ev["eqio"], ev["eqiorev"] = geom.ExactEquals(ag, bg, geom.IgnoreOrder), geom.ExactEquals(bg, ag, geom.IgnoreOrder)
+		ev["eqaa"], ev["eqbb"] = geom.ExactEquals(ag, ag), geom.ExactEquals(bg, bg)
+		ev["eqioaa"], ev["eqiobb"] = geom.ExactEquals(ag, ag, geom.IgnoreOrder), geom.ExactEquals(bg, bg, geom.IgnoreOrder)
+		// the same pair as members of a MultiLineString (in swapped positions) and of a GeometryCollection
+		extra := geom.NewLineString(seqOf([]geom.XY{{X: 50, Y: 50}, {X: 51, Y: 52}}))
+		ma := geom.NewMultiLineString([]geom.LineString{extra, a}).AsGeometry()
+		mb := geom.NewMultiLineString([]geom.LineString{b, extra}).AsGeometry()
+		ga := geom.NewGeometryCollection([]geom.Geometry{ag, extra.AsGeometry()}).AsGeometry()
+		gb := geom.NewGeometryCollection([]geom.Geometry{extra.AsGeometry(), bg}).AsGeometry()
+		ev["eqiom"] = geom.ExactEquals(ma, mb, geom.IgnoreOrder)
+		ev["eqiogc"] = geom.ExactEquals(ga, gb, geom.IgnoreOrder)
 		return ev
 	}
 	if c.str("kind") == "tol" {
@@ -271,6 +302,47 @@ func equalGen(r *rand.Rand, n int, tier string, emit func(Case)) {
 				r.Shuffle(len(q), func(a, b int) { q[a], q[b] = q[b], q[a] })
 			}
 			emit(Case{"kind": "tolio", "p": p, "q": q, "t2": t2})
+			continue
+		}
+		if i%12 == 8 {
+			// a closed walk on a small lattice (successive vertices distinct) and a variant of it
+			N := 2 + r.Intn(3)
+			m := 3 + r.Intn(4)
+			var p []interface{}
+			for len(p) < m {
+				v := []interface{}{r.Intn(N + 1), r.Intn(N + 1)}
+				if len(p) > 0 && v[0] == p[len(p)-1].([]interface{})[0] && v[1] == p[len(p)-1].([]interface{})[1] {
+					continue
+				}
+				if len(p) == m-1 && v[0] == p[0].([]interface{})[0] && v[1] == p[0].([]interface{})[1] {
+					continue
+				}
+				p = append(p, v)
+			}
+			cyc := append([]interface{}{}, p...)
+			p = append(p, p[0])
+			k := r.Intn(m)
+			q := []interface{}{}
+			for j := 0; j < m; j++ {
+				q = append(q, cyc[(j+k)%m])
+			}
+			q = append(q, q[0])
+			switch r.Intn(5) {
+			case 0:
+				q = append([]interface{}{}, p...)
+			case 1:
+				q = revList(p)
+			case 2:
+				q = revList(q)
+			case 3: // one vertex moved
+				j := r.Intn(m)
+				v := q[j].([]interface{})
+				q[j] = []interface{}{v[0].(int) + 1, v[1]}
+				if j == 0 {
+					q[m] = q[0]
+				}
+			}
+			emit(Case{"kind": "curve", "p": p, "q": q})
 			continue
 		}
 		if i%12 == 11 {
